@@ -424,7 +424,7 @@ package vuego
 //@     (visited(k) ==> (k in passedData) && (k in dataMap) && dataMap[k] == passedData[k]) &&
 //@     (!visited(k) ==> ((k in dataMap) == (k in t.vue.initialData)) && ((k in dataMap) ==> dataMap[k] == t.vue.initialData[k]))
 //@   loop 1 invariant C08.fill.passed.def: forall k string :: ((k in passedData) == passedHas(vars, k)) && ((k in passedData) ==> passedData[k] == passedGet(vars, k))
-//@   loop 2 invariant C08.fill.front: fresh(dataMap) && dataMap != nil && passedData != dataMap && forall k string ::
+//@   loop 2 invariant C07+C08.fill.front: fresh(dataMap) && dataMap != nil && passedData != dataMap && forall k string ::
 //@     (visited(k) ==> (k in t.frontMatter) && (k in dataMap) && dataMap[k] == t.frontMatter[k]) &&
 //@     (!visited(k) ==> ((k in dataMap) == (passedHas(vars, k) || (k in t.vue.initialData))) &&
 //@        ((k in dataMap) ==> dataMap[k] == (passedHas(vars, k) ? passedGet(vars, k) : t.vue.initialData[k])))
